@@ -244,7 +244,7 @@ class SymEnv(BaseEnv):
             v = C(real(name + '.re'), real(name + '.im'))
             self.inputs[name] = {'kind': 'scalar', 'skind': kind, 'syms': v}
             return v
-        v = apoly.new_real(name) if self.scalar_mode == 'A' else real(name, 'npfloat' if kind == 'npfloat' else 'float')
+        v = apoly.new_real(name) if self.scalar_mode == 'A' else real(name, kind if kind in ('npfloat', 'npfloat32', 'npint') else 'float')
         self.inputs[name] = {'kind': 'scalar', 'skind': kind, 'dtype': dtype, 'syms': v}
         if kind == 'tensor0':
             return st.Tensor(st._objarr(v), DT[dtype])
@@ -450,7 +450,10 @@ class ExactEnv(BaseEnv):
             return 2.5
         if kind == 'complex':
             return C(self._k(seeded_fraction(self.seed, name + '.re', 0)), self._k(seeded_fraction(self.seed, name + '.im', 0)))
-        v = self._k(seeded_fraction(self.seed, name, 0), 'npfloat' if kind == 'npfloat' else 'float')
+        fr = seeded_fraction(self.seed, name, 0)
+        if kind == 'npint':
+            fr = Fraction(int(fr * 8))
+        v = self._k(fr, kind if kind in ('npfloat', 'npfloat32', 'npint') else 'float')
         if kind == 'tensor0':
             return st.Tensor(st._objarr(v), DT[dtype])
         if kind == 'tensor1':
